@@ -55,6 +55,7 @@ type Runner struct {
 	cond     *sync.Cond
 	done     map[string]int // reply subject -> request.done count
 	listened int64          // listener.msgDone count
+	qpassed  int64
 	reqSeq   int64
 	extra    func(point string, arg interface{})
 }
@@ -107,6 +108,11 @@ func (r *Runner) hook(point string, arg interface{}) {
 		r.listened++
 		r.mu.Unlock()
 		r.cond.Broadcast()
+	case "qlistener.msgDone":
+		r.mu.Lock()
+		r.qpassed++
+		r.mu.Unlock()
+		r.cond.Broadcast()
 	}
 	if r.extra != nil {
 		r.extra(point, arg)
@@ -153,6 +159,50 @@ func (r *Runner) WaitListened(n int64) error {
 		waitCond(r.cond, 100*time.Millisecond)
 	}
 	return nil
+}
+
+// QueryPassed returns how many query requests the query listeners have passed on to workers.
+func (r *Runner) QueryPassed() int64 {
+	r.mu.Lock()
+	defer r.mu.Unlock()
+	return r.qpassed
+}
+
+// QueryResponse delivers a query request for the query event with that subject, emitted by
+// the resource named rname, and returns the response payloads. Nothing is waited for with a
+// clock as a verdict: once the query listener has passed the request on, a With callback on
+// the same resource is queued behind it (one group, first-in first-out); when that callback
+// runs, the request has been handled, and what was published on the reply subject by then is
+// all there will be.
+func (r *Runner) QueryResponse(rname, subject, reply string, payload []byte) ([][]byte, error) {
+	base := r.QueryPassed()
+	if n := r.C.Deliver(subject, reply, payload); n != 1 {
+		return nil, fmt.Errorf("query request on %s delivered to %d subscriptions", subject, n)
+	}
+	deadline := time.Now().Add(30 * time.Second)
+	r.mu.Lock()
+	for r.qpassed <= base {
+		if time.Now().After(deadline) {
+			r.mu.Unlock()
+			return nil, fmt.Errorf("VERIF-INCONCLUSIVE: the query listener did not pass the request on within 30s")
+		}
+		waitCond(r.cond, 100*time.Millisecond)
+	}
+	r.mu.Unlock()
+	barrier := make(chan struct{})
+	if err := r.S.With(rname, func(res.Resource) { close(barrier) }); err != nil {
+		return nil, fmt.Errorf("With(%q): %v", rname, err)
+	}
+	select {
+	case <-barrier:
+	case <-time.After(30 * time.Second):
+		return nil, fmt.Errorf("VERIF-INCONCLUSIVE: a With callback on %s did not run within 30s", rname)
+	}
+	var out [][]byte
+	for _, e := range r.C.Published(reply) {
+		out = append(out, e.Data)
+	}
+	return out, nil
 }
 
 // DoneCount returns how many times the request with that reply subject was processed.
